@@ -143,7 +143,7 @@ pub fn canon_coordinates() {
 
 // ---- decode(encode(x)) == x for every object value ---------------------------------------------
 pub fn rt_pk() {
-    let pk = BBSplusPublicKey(G2Projective(any_elem()));
+    let pk = BBSplusPublicKey(G2Projective::from_nonzero_dlog(any_elem()));
     assert!(BBSplusPublicKey::from_bytes(&pk.to_bytes()).unwrap() == pk);
     let (x, y) = pk.to_coordinates();
     assert!(BBSplusPublicKey::from_coordinates(&x, &y).unwrap() == pk);
@@ -153,7 +153,7 @@ pub fn rt_sk() {
     assert!(BBSplusSecretKey::from_bytes(&sk.to_bytes()).unwrap() == sk);
 }
 pub fn rt_sig() {
-    let s = BBSplusSignature { A: G1Projective(any_elem()), e: any_nonzero_scalar() };
+    let s = BBSplusSignature { A: G1Projective::from_nonzero_dlog(any_elem()), e: any_nonzero_scalar() };
     assert!(BBSplusSignature::from_bytes(&s.to_bytes()).unwrap() == s);
 }
 pub fn rt_blindfactor() {
